@@ -18,7 +18,7 @@ EXPLANATION = (
     'guaranteed release (known finding); R13.e the fields of Core that hold user types are declared (and so dropped) before the executor '
     'and the channel receivers (R13.c also requires that every path from resolving a one-shot entry to the return of resume() passes the test that frees it, '
     'including the path on which resolve() returned an error); R13.f the long-lived containers of the runtime crates are exactly the tabled ones. Timely release of '
-    'captured values for every program is not decided. R13.i every queue endpoint held by a runtime type is a tabled channel implementation (crossbeam, futures, crux\'s own wrapper) whose backlog is dropped when the receiving side goes.')
+    'captured values for every program is not decided. R13.i every queue endpoint held by a runtime type is a tabled channel implementation (crossbeam, futures, crux\'s own wrapper) whose backlog is dropped when the receiving side goes. R13.j Command::then hands each operand by value to the call that hosts it, so a finished part is dropped before the next starts.')
 
 CONTAINER_RX = re.compile(r'\b(slab::Slab|std::collections::hash::map::HashMap|std::collections::hash::set::HashSet|'
                           r'alloc::collections::btree::map::BTreeMap|alloc::collections::btree::set::BTreeSet|'
